@@ -58,6 +58,9 @@ func checkC15(c *Ctx) {
 	c.Decides("KEY-RAW (shared with C05): every access to the name index's map in tree/nodeindex.go is keyed by a name as it is, on the storing and on the looking-up side alike (InsertIdenticalTips finds the model tip it was given)")
 	c.indexKeysRaw("KEY-RAW", "add exactly the requested tips")
 	c.Floor("KEY-RAW", 4)
+	c.Decides("RETURNS-NEW: every tree SubTree and Clone return is a tree created in the call (a local assigned from NewTree()), never the receiver")
+	c.returnsNewTree("RETURNS-NEW", []*FuncInfo{c.Func("tree", "Tree", "SubTree"), c.Func("tree", "Tree", "Clone")}, "an extracted subtree is fully independent of its source")
+	c.Floor("RETURNS-NEW", 2)
 	c.Decides("CMD-REACHES: in the repopulate command nothing between the head of the loop over the input trees and the call of InsertIdenticalTips leaves the iteration except under an error test")
 	c.cmdReaches("CMD-REACHES", "cmd/repopulate.go", []string{"InsertIdenticalTips"}, "inserting tips")
 	c.Floor("CMD-REACHES", 1)
